@@ -61,7 +61,7 @@ def pairs(n):
 
 
 def build_mol(c, n, alphabet=("C",), K_m=2, K_r=1, pinned=None, mass_lo=1, rad_lo=1,
-              fixed_bonds=None, label_atoms=None):
+              fixed_bonds=None, label_atoms=None, rad_hi=None):
     """Solver-forked shape/elements/label positions; symbolic label values.
 
     pinned: dict {(a,b): bool} of edge bits fixed by the job (parallelism);
@@ -94,7 +94,7 @@ def build_mol(c, n, alphabet=("C",), K_m=2, K_r=1, pinned=None, mass_lo=1, rad_l
         if hm and hm[a]:
             mass[a] = c.int(f"m{a}", lo=mass_lo)
         if hr and hr[a]:
-            rad[a] = c.int(f"r{a}", lo=rad_lo)
+            rad[a] = c.int(f"r{a}", lo=rad_lo, hi=rad_hi)
     return Mol(elements, mass, rad, bonds)
 
 
